@@ -4,3 +4,4 @@ import RimuModel.Types
 import RimuModel.Generated.Unicode
 import RimuModel.Generated.Patterns
 import RimuModel.Generated.Defs
+import RimuModel.Cli
